@@ -165,6 +165,21 @@ pub fn run(ctx: &mut Ctx) {
     or.count_n("longest_response_seen", maxlen as u64);
     or.sample(format!("vars.resp 7 18446744073709551615 - vec -> {}", im.exec("vars.resp 7 18446744073709551615 - vec")));
     or.sample(format!("hdr.dec 0109000000330500 -> {}", im.exec("hdr.dec 0109000000330500")));
+    // small API corners no protocol path goes through (oracle only): RequestFlags::validate over all 256 bytes — the only
+    // defined flag is KeepConn (bit 0) —, ExitStatus::default / From<u32>
+    {
+        use fastcgi_server::protocol as fcgi;
+        for b in 0..=255u8 {
+            let fl = fcgi::RequestFlags::from(b);
+            let r = fl.validate();
+            let ok = match (&r, b & !1) { (Ok(()), 0) => true, (Err(fcgi::Error::UnknownFlags(u)), x) if x != 0 => *u == x, _ => false };
+            if !ok { or.fail(format!("RequestFlags::from({b:#x}).validate() = {r:?}"), format!("# case flat-oracle\n# RequestFlags::validate {b}"), format!("flags-validate:{b}")); }
+            if u8::from(fl) != b { or.fail(format!("RequestFlags::from({b:#x}) does not retain its bits"), format!("# case flat-oracle\n# RequestFlags {b}"), format!("flags-retain:{b}")); }
+        }
+        or.eval_bulk(256, 256, "flags-validate");
+        if fastcgi_server::ExitStatus::default() != fastcgi_server::ExitStatus::SUCCESS { or.fail("ExitStatus::default() is not SUCCESS".into(), "# case flat-oracle\n# ExitStatus::default".into(), "exit-default".into()); }
+        for v in [0u32, 1, 77, u32::MAX] { if fastcgi_server::ExitStatus::from(v) != fastcgi_server::ExitStatus::Complete(v) { or.fail(format!("ExitStatus::from({v}) is not Complete({v})"), "# case flat-oracle\n# ExitStatus::from".into(), format!("exit-from:{v}")); } }
+    }
     or.count_n("corr_ops", log.nops);
     log.finish();
     or.write(&ctx.dir);
